@@ -774,6 +774,11 @@ func runHaltCase(c *caseCtx, zt *board.ZobristTable, zseed int64, fenStr string,
 	rec := &recordingTT{TranspositionTable: tt, b: b, ctx: cctx}
 	nodes, score, pv, err1 := mk().Search(cctx, &search.Context{Alpha: cfg.low, Beta: cfg.high, TT: rec}, b, d)
 	after := boardObs(zt, b, true)
+	// some poll of this search saw the cancellation (the context is cancelled from poll n on): it has to
+	// say that it was halted, not return a score
+	if cctx.Err() != nil && err1 == nil {
+		fmt.Printf("IMPLVIOL halt %d %s %d %d %d %s cancel=%d :: the search saw the cancellation at poll %d (of %d polls) and still returned the score %s instead of reporting that it was halted prop=C12 key=halt-not-reported\n", zseed, posTok(pos), turn, np, fm, cfg.String(), n, n, atomic.LoadInt64(&cctx.polls), scoreTok(score))
+	}
 	nAfter := 0
 	for _, w := range rec.writes {
 		if w.after {
